@@ -292,12 +292,14 @@ def _write_case_file(path, extra_requires, ctype, okfn, terms, chunk=150):
         f.write(f"Eval vm_compute in mismatches ({okfn}) ({allc}).\n")
 
 
-def _eval_case_file(path):
+def _eval_case_file(path, limit=600):
     d, fn = os.path.split(path)
     rel = os.path.relpath(path, COQ)
     lib = os.path.splitext(fn)[0]
-    cmd = ["timeout", "600", "coqc"] + COQ_FLAGS + ["-Q", os.path.relpath(d, COQ), "D42Cases", rel]
-    rc, out = sh(cmd, cwd=COQ, timeout=620)
+    cmd = ["timeout", str(limit), "coqc"] + COQ_FLAGS + ["-Q", os.path.relpath(d, COQ), "D42Cases", rel]
+    rc, out = sh(cmd, cwd=COQ, timeout=limit + 20)
+    if rc == 124:
+        return "timeout", out
     if rc != 0:
         return None, out
     m = re.search(r"=\s*\[(.*?)\]\s*:\s*list nat", out, re.S)
@@ -308,9 +310,12 @@ def _eval_case_file(path):
     return idx, out
 
 
-def eval_cases(workdir, name, terms, ctype, okfn, extra_requires="", per_file=400, jobs=16):
+def eval_cases(workdir, name, terms, ctype, okfn, extra_requires="", per_file=400, jobs=16, slow=None, limit=600):
     """Evaluate the model on the cases inside Coq; returns the list of global indices where
-    model and implementation disagree.  Raises CheckBroken if Coq rejects a case file."""
+    model and implementation disagree.  Raises CheckBroken if Coq rejects a case file.
+    slow: when a list is given, a case file that exceeds `limit` seconds is re-evaluated one case per file
+    (60 s each) and the indices of the cases that still do not finish are appended to it instead of
+    breaking the check (evaluation cost of the executable model is not a verdict about the code)."""
     os.makedirs(workdir, exist_ok=True)
     files = []
     for k in range(0, len(terms), per_file):
@@ -318,11 +323,29 @@ def eval_cases(workdir, name, terms, ctype, okfn, extra_requires="", per_file=40
         _write_case_file(p, extra_requires, ctype, okfn, terms[k:k + per_file])
         files.append((k, p))
     bad = []
+    retry = []
     with concurrent.futures.ThreadPoolExecutor(max_workers=jobs) as ex:
-        for (k, p), (idx, out) in zip(files, ex.map(lambda kp: _eval_case_file(kp[1]), files)):
-            if idx is None:
+        for (k, p), (idx, out) in zip(files, ex.map(lambda kp: _eval_case_file(kp[1], limit), files)):
+            if idx == "timeout" and slow is not None:
+                retry.append(k)
+                continue
+            if idx is None or idx == "timeout":
                 raise CheckBroken(f"coqc failed on {p}:\n{out[-3000:]}")
             bad += [k + i for i in idx]
+        singles = []
+        for k in retry:
+            for i in range(k, min(k + per_file, len(terms))):
+                p = os.path.join(workdir, f"cases_{name}_one_{i}.v")
+                _write_case_file(p, extra_requires, ctype, okfn, terms[i:i + 1])
+                singles.append((i, p))
+        for (i, p), (idx, out) in zip(singles, ex.map(lambda kp: _eval_case_file(kp[1], 60), singles)):
+            if idx == "timeout":
+                slow.append(i)
+            elif idx is None:
+                raise CheckBroken(f"coqc failed on {p}:\n{out[-3000:]}")
+            elif idx:
+                bad.append(i)
+        files += singles
     for _, p in files:
         base = p[:-2]
         for ext in (".vo", ".vok", ".vos", ".glob"):
